@@ -670,6 +670,15 @@ impl Nat {
                 let r = RefNum::norm(Big::from_u64_digits(&digits), 0);
                 Some(self.put(ctx, "fromle", x, n, r))
             }
+            ["clonefrom", z, x, y] => {
+                // z := x.clone(); z.clone_from(&y)   (must equal y, whatever x's representation was)
+                let mut a = self.vals.get(*x)?.clone();
+                let b = self.vals.get(*y)?;
+                a.clone_from(b);
+                ctx.count("clonefrom");
+                let r = self.refs.get(*y)?.clone();
+                Some(self.put(ctx, "clonefrom", z, a, r))
+            }
             ["add", z, x, y] => {
                 let a = self.vals.get(*x)?.clone();
                 let b = self.vals.get(*y)?.clone();
@@ -1025,6 +1034,12 @@ impl<'a> G<'a> {
         self.emit(format!("add n{} n{} n{}", i, x, y));
         i
     }
+    fn clonefrom(&mut self, x: usize, y: usize) -> usize {
+        let r = self.vals[y].clone();
+        let i = self.fresh(r);
+        self.emit(format!("clonefrom n{} n{} n{}", i, x, y));
+        i
+    }
     fn shl(&mut self, x: usize, k: u64, via32: bool) -> usize {
         let r = ref_shl(&self.vals[x], k);
         let i = self.fresh(r);
@@ -1237,6 +1252,12 @@ fn generate(cfg: &GenCfg, rng: &mut Rng, w: &mut dyn Write) {
             g.observe(rng, t, false);
             let back = g.shr(xs, a, rng.chance(1, 2));
             g.cmp(back, x);
+            // clone_from between every pair of representations (inline / heap of equal or different
+            // length / zero / error value): the target must become the source
+            let cf = g.clonefrom(x, y);
+            g.cmp(cf, y);
+            let cf2 = g.clonefrom(t, x);
+            g.observe(rng, cf2, false);
             if j == 0 {
                 // unary observations of x once per row
                 g.observe(rng, x, true);
